@@ -19,7 +19,7 @@ REQUIRED_THEOREMS = [
     "Acn.C01.run_terminates_any_queue", "Acn.C01.run_terminates_real_heap", "Acn.C01.runQ_canonical_eq_run",
     "Acn.Sim.body_pilots", "Acn.Sim.run_pilots", "Acn.Sim.run_applied_eq_spec",
     "Acn.C01.run_terminates_any_network", "Acn.C01.history_sorted_complete_any_network",
-    "Acn.C01.bodyG_chargingNet_eq_body", "Acn.C01.cfg1_validQ", "Acn.Sim.body_core_any",
+    "Acn.C01.bodyG_chargingNet_eq_body", "Acn.C01.cfg1_validQ", "Acn.Sim.body_core_any", "Acn.C01.sim_runQ_heap_C01",
 ]
 BUDGET = {"quick": 1200, "thorough": 15000, "search": 8000}
 TRUSTED = ["CPython heapq: heappop returns a <-minimal entry and keeps the rest (which one among equal "
